@@ -229,6 +229,11 @@ A check that is right was never loosened; these were errors of the machinery and
   this is what let the seeded change C02-m9 hide. The first version of the "only behind a prefix" test compared error
   texts, which quote file sizes: in the thorough tier a file already unreadable at offset 0 (finding D11a) was reported as a
   prefix failure on the unchanged tree; the test now goes by file name. Found by running every thorough command after the change.
+* C19 (not committed): an "independent" oracle for seek positions (start / end relative seeks clamp to the nearer end of the
+  file) failed on the unchanged tree for negative offsets from the start and for i32::MIN from the end. The property demands
+  memory safety and agreement with the Rust API, which has no seek; where such a seek lands is the C API's own rule (it is what
+  the handle-table model encodes and compares). The oracle demanded more than the property states and was dropped the same
+  hour; the seeded change C19-m11 stays reported through the model correspondence, without a failing input.
 
 ## 9. Seeded changes (fresh sub-agents, own worktrees) and which check catches them
 
